@@ -109,6 +109,7 @@ def resolve_one(syms, prefixes=True):
     except Exception as ex:  # noqa: BLE001 - recorded, judged by the monitor (C04)
         out["raised"] = f"{type(ex).__name__}: {ex}"
         out["tb"] = traceback.format_exc()[-600:]
+        out.update(trace_fields(out))
         return out
     if prefixes:
         for k in range(len(objs)):
@@ -116,7 +117,14 @@ def resolve_one(syms, prefixes=True):
                 out["prefix"].append(project(resolve_citations(objs[:k]), objs))
             except Exception as ex:  # noqa: BLE001
                 out["prefix"].append([{"key": -1, "m": [-1], "raised": type(ex).__name__}])
+    out.update(trace_fields(out))
     return out
+
+
+def trace_fields(o):
+    """the fields of a Trace_Resolve record that come from the code"""
+    return {"g": o["groups"] or [], "r": o["raised"] or "",
+            "pre": [[g for g in pre] for pre in o["prefix"]] if not o["raised"] else []}
 
 
 def run(payload):
